@@ -271,6 +271,8 @@ def oracle_c14(case, got):
     if neg: shown = -shown
     if shown != Fraction(want, 10 ** dd):
         return "printed %r denotes %s, exact value %s rounds half-up to %s" % (s, shown, x, Fraction(want, 10 ** dd))
+    if neg and shown == 0:
+        return "printed %r: a value that rounds to zero is shown with a minus sign (exact value %s)" % (s, x)
     if cls == 1 and dd > p and ('_' not in s or len(s.split('_')[1]) != dd - p):
         return "guard digits not set off after underscore in %r" % s
     return None
